@@ -153,6 +153,12 @@ def scenarios(rng, quick):
     out.append(("rfburst:past-the-limit", [(15.0, "rfburst", max_rf() - 1), (25.0, "rfburst", 3)], {}, 200))
     out.append(("rfburst:while-complete-handler-suspended", [(8.0, "rfburst", max_rf() + 1)], {"CONNECTION_SPA_COMPLETE": 20.0}, 150))
     out.append(("rfburst:in-handshake", [(4.6, "rfburst", max_rf() + 2)], {}, 150))
+    # ... placed by the events of the pilot run, so that the burst falls inside the handshake whatever the timing is
+    event_times()
+    for nm_ in ("CONNECTION_STARTED", "GOT_FIRMWARE", "GOT_CHANNEL"):
+        tt_ = [te for (n2_, te) in _PILOT["named"] if n2_ == nm_]
+        if tt_:
+            out.append((f"rfburst:after-{nm_}", [(round(tt_[0] + 0.03, 3), "rfburst", max_rf() + 2)], {}, 150))
     # async_set_spa_info: with the same spa at any time (= a reset), and as the step that gives a manager
     # started without an identifier ("Choose spa") its spa
     for t in ([4.3, 9.0] if quick else [0.05, 2.0, 4.05, 4.3, 4.8, 6.0, 7.75, 9.0, 20.0]):
